@@ -302,9 +302,9 @@ def monitored_history(ctx, seed, nb, cases_per_hist):
 def correspond(ctx):
   depsenv.Monitor.install()
   ctx._c05_cases = []
-  ctx._c05_case_budget = ctx.n(400, 6000)
+  ctx._c05_case_budget = ctx.n(400, 4000)
   t0 = time.time()
-  budget = ctx.n(18, 1500)
+  budget = ctx.n(18, 420)
   n = 0
   evals = 0
   for i in range(ctx.n(40, 1200)):
@@ -372,16 +372,17 @@ def search(ctx):
       ctx.violation(kind, it['what'], it['replay'])
   ctx.count(('shared', ctx.seed), nontrivial=res.get('stats', {}).get('ok_bundles', 0) > 0, kind='oracle:shared-run')
   ctx.log('shared run: %d C05 issues' % sum(1 for it in res['issues'] if it['prop'] == 'C05'))
-  # 2. own stream
+  # 2. own stream (quick tier: whatever is left of ~80 s, at least 4 s per stream)
+  left = max(8.0, 80.0 - (time.time() - ctx.t0))
   t0 = time.time()
-  budget = ctx.n(10, 1500)
+  budget = ctx.n(min(10, left / 2), 300)
   for i in range(ctx.n(30, 1500)):
     if time.time() - t0 > budget or len(ctx.violations) > 10:
       break
     oracle_history(ctx, ctx.rng.randrange(1 << 30), ctx.n(8, 12), 'c05-stream')
   # 2b. small documents of the named dependency shapes with dense edits
   t0 = time.time()
-  budget = ctx.n(10, 1500)
+  budget = ctx.n(min(10, left / 2), 300)
   for i in range(ctx.n(60, 4000)):
     if time.time() - t0 > budget or len(ctx.violations) > 10:
       break
